@@ -215,6 +215,9 @@ func (u *universe) parentList() []string {
 }
 
 func (u *universe) sel() *selector.Selector {
+	if u.rnd.Intn(5) == 0 {
+		return parseAST(u.gen.SameLabelShape())
+	}
 	return parseAST(u.gen.AST(u.rnd.Intn(4)))
 }
 
